@@ -179,6 +179,53 @@ def handle_slots(facts, builder):
     return out
 
 
+def lockstep(facts, res, fn):
+    """S7: every advance of a group iterator is paired, in the same block, with the advance of exactly one handle-index
+    counter (and vice versa), the same counter for the same iterator everywhere, and the counter starts at 0"""
+    import cursor
+    R = "C03.S7.handle-index-lockstep"
+    sk = cursor.Skeletons(facts, fn, ops=False)
+    pairs = {}
+    n = 0
+
+    def rec(items):
+        nonlocal n
+        its = [x for x in items if x[0] == "act" and re.match(r"^\+\+(it|each)\(", x[1])]
+        cts = [x for x in items if x[0] == "act" and re.match(r"^(\+\+mutable:\w+|mutable:\w+\+=1)$", x[1])]
+        if its or cts:
+            n += 1
+            if bool(its) != bool(cts):
+                node = (its or cts)[0][2]
+                res.violation(R, tbf.rel(facts.path_of(node)), fn["qname"], "unpaired@%d" % node["l"][1], node["l"][1],
+                              "%d iterator advance(s) but %d handle-index advance(s) in the same branch: handles and groups drift apart" % (len(its), len(cts)))
+            elif len(cts) == 1 or len(cts) == len(its):
+                # parallel sequences (leaf groups / particle groups) share one index
+                for i, a in enumerate(its):
+                    b = cts[0] if len(cts) == 1 else cts[i]
+                    ctr = re.search(r"mutable:(\w+)", b[1]).group(1)
+                    prev = pairs.setdefault(a[1], ctr)
+                    if prev != ctr:
+                        res.violation(R, tbf.rel(facts.path_of(b[2])), fn["qname"], "counter@%d" % b[2]["l"][1], b[2]["l"][1],
+                                      "iterator %s advances with counter '%s' here and with '%s' elsewhere" % (a[1][:80], ctr, prev))
+            else:
+                raise AnalysisBroken("%s: %d iterator / %d counter advances in one branch at line %d: pairing not recognised" % (fn["qname"], len(its), len(cts), its[0][2]["l"][1]))
+        for x in items:
+            if x[0] == "if":
+                rec(x[2]); rec(x[3])
+            elif x[0] == "loop":
+                rec(x[3])
+    t = sk.tree()
+    rec(t)
+    for x in t:
+        if x[0] == "act" and ":=" in x[1]:
+            nm, init = x[1].split(":=", 1)
+            if nm.replace("mutable:", "") in pairs.values() and init != "0":
+                res.violation(R, tbf.rel(facts.path_of(x[2])), fn["qname"], "init@%d" % x[2]["l"][1], x[2]["l"][1], "handle index starts at %s, the iterator at the first group" % init)
+    res.instance(R, fn["qname"], facts.loc(fn), "%d advancing branches, iterator->counter %s" % (n, sorted(set(pairs.values()))))
+    if not n:
+        raise AnalysisBroken("%s: no iterator/handle-index advance recognised" % fn["qname"])
+
+
 def run_c03(res):
     facts = tbf.scan("starpu")
     res.units.append("umbrella TU 'starpu' (core + smstarpu headers, declaration-only starpu.h stub; %d function patterns)" % len(facts.functions))
@@ -191,7 +238,17 @@ def run_c03(res):
     import c02
     wroles = c02.wrapper_param_roles(facts, cmap)
     ninsert = 0
+    import cursor
     for cls, builder in CLASSES:
+        refcls = "TbfAlgorithmTsm" if cls.endswith("Tsm") else "TbfAlgorithm"
+        for st in ("P2M", "M2M", "M2L", "L2L", "L2P", "P2P"):
+            a = [m for m in facts.methods_of(refcls) if m["name"] == st and not m.get("inst")]
+            b = [m for m in facts.methods_of(cls) if m["name"] == st and not m.get("inst")]
+            if len(a) != 1 or len(b) != 1:
+                raise AnalysisBroken("stage %s of %s / %s not found" % (st, cls, refcls))
+            # StarPU submits through starpu_insert_task and carries a handle index next to each iterator: compare the iterator walk only
+            cursor.compare(facts, res, "C03.a.same-walk", a[0], b[0], "walk over the groups of stage %s" % st, ops=False, counters=False)
+            lockstep(facts, res, b[0])
         cls_fields = {f["name"] for f in facts.cls(cls)["fields"]}
         cl = codelets(facts, cls)
         hslots = handle_slots(facts, builder)
